@@ -13,7 +13,7 @@ Inductive case := CConc (progs : list (list item)) (st0 : list (option Z)) (tmo 
 
 Definition oz_eqb := option_eqb Z.eqb.
 Definition bk_eqb (a b : bk) : bool :=
-  match a, b with BGet, BGet | BPut, BPut | BIncr, BIncr | BDel, BDel | BSetLock, BSetLock | BUnlock, BUnlock | BDelMany, BDelMany | BSetMany, BSetMany | BExists, BExists => true | _, _ => false end.
+  match a, b with BGet, BGet | BPut, BPut | BIncr, BIncr | BDel, BDel | BSetLock, BSetLock | BUnlock, BUnlock | BDelMany, BDelMany | BSetMany, BSetMany | BExists, BExists | BExpire, BExpire => true | _, _ => false end.
 Definition outcome_eqb (a b : outcome) : bool :=
   match a, b with
   | Ok x, Ok y => list_eqb oz_eqb x y
@@ -98,6 +98,15 @@ Fixpoint seq_eff (cmds : list cmd) (reads : list (option Z)) (ov : list (nat * Z
                           let '(ov', dl') := lapply (ov, dl) (LPutIf k v want hit) in seq_eff r rs ov' dl' (res ++ [b2z hit])
       | None, [] => seq_eff r [] ov dl res
       end
+  | Touch k :: r =>
+      match lookup ov k with
+      | Some _ => seq_eff r reads ov dl (res ++ [None])
+      | None => if memk k dl then seq_eff r reads ov dl (res ++ [None])
+                else match reads with
+                     | v :: rs => let '(ov', dl') := lapply (ov, dl) (LTouch k (Some v)) in seq_eff r rs ov' dl' (res ++ [None])
+                     | [] => seq_eff r [] ov dl res
+                     end
+      end
   end.
 
 Record tst := { t_item : nat;                    (* index of the current / next item *)
@@ -109,7 +118,7 @@ Definition tst0 := {| t_item := O; t_in := false; t_reads := []; t_wrote_del := 
 Definition cur_item (progs : list (list item)) (i : nat) (s : tst) : option item := nth_error (nth i progs []) (t_item s).
 
 Definition write_keys (cmds : list cmd) := map cmd_key (filter is_write cmds).
-Definition only_incr (k : nat) (c : cmd) := negb (Nat.eqb (cmd_key c) k) || match c with Incr _ _ | Get _ | Sleep _ => true | _ => false end.
+Definition only_incr (k : nat) (c : cmd) := negb (Nat.eqb (cmd_key c) k) || match c with Incr _ _ | Get _ | Sleep _ | Touch _ => true | _ => false end.
 Definition writer_modes (progs : list (list item)) (k : nat) : list mode :=
   flat_map (fun p => flat_map (fun it => match it with
                                         | Txn b => if existsb (fun c => Nat.eqb (cmd_key c) k && is_write c) (bcmds b) then [bmode b] else []
@@ -173,6 +182,7 @@ Fixpoint ok_log (progs : list (list item)) (univ : list nat) (tmo : Z) (ts : nat
              | PutIf k' v want, BPut =>
                  let hit := Bool.eqb (isSomeZ (bef k)) want in
                  Nat.eqb k k' && oz_eqb r (b2z hit) && oz_eqb (aft k) (if hit then Some v else bef k) && same_except [k]
+             | Touch k', BExpire => Nat.eqb k k' && same_except []
              | _, _ => false
              end, s, overstay)
         | Some (Txn blk) =>
